@@ -1,6 +1,7 @@
 /-
 C09 — `--read_group file:TABLE`: the table is split into one file per chromosome (`split_read_group_table`), and the
-collector of chromosome `c` groups its reads with `ReadTableGrouper(<file of c>, 0, 1, '\t')`.
+collector of chromosome `c` groups its reads with `ReadTableGrouper(<file of c>, 0, 1, '\t', internal=True)`, i.e. with the
+dictionary `load_split_table` reads from that file (repaired code, candidate patch fix_D1; Model/C09Files.lean).
 
 `alns` is the sequence of BAM records the function iterates over: the records of the first BAM file of the sample in file
 order, then those of the second, … (one `processed_reads[chr]` set per chromosome is shared by all files), each as
@@ -12,9 +13,10 @@ chromosomes (an earlier seeded change, `splitTableLinesGlobal`) loses the group 
 -/
 import IsoVerif.Model.C09Labels
 import IsoVerif.Props.C09Tables
+import IsoVerif.Props.C09Files
 
 namespace IsoVerif.Props.C09TablesChrom
-open IsoVerif.Model.C09 IsoVerif.Lemmas.C09 IsoVerif.Lemmas.C09Split IsoVerif.Props.C09Tables
+open IsoVerif.Model.C09 IsoVerif.Lemmas.C09 IsoVerif.Lemmas.C09Split IsoVerif.Props.C09Tables IsoVerif.Props.C09Files
 
 /-- the group the table assigns to a read (`NA` without a row) -/
 def tableGroup (m : List (String × String)) (rid : String) : String :=
@@ -25,13 +27,15 @@ def tableGroup (m : List (String × String)) (rid : String) : String :=
 /-- **read_keeps_group_on_every_chromosome**: for every chromosome `chr` and every read that has a BAM record on `chr`,
     the grouper built from the per-chromosome file of `chr` returns exactly the group of the whole table (`NA` when the
     table has no row for the read) — whatever other chromosomes the read also has records on, before or after, in the
-    same or another BAM file of the sample (clean ids and groups, as in `table_roundtrip`) -/
+    same or another BAM file of the sample.  Domain as in `table_roundtrip`: read ids without tab / newline, groups without
+    newline (no cleanliness condition: `#` ids, empty and blank-padded groups included) -/
 theorem read_keeps_group_on_every_chromosome (m : List (String × String)) (alns : List (String × Option String))
-    (hclean : ∀ rid c g, (rid, c) ∈ alns → m.lookup rid = some g → CleanRead rid ∧ CleanField g)
+    (hids : ∀ rid c, (rid, c) ∈ alns → '\t' ∉ rid.toList ∧ '\n' ∉ rid.toList)
+    (hgrp : ∀ rid g, m.lookup rid = some g → '\n' ∉ g.toList)
     (chr : String) (a : Aln) (h : (a.name, some chr) ∈ alns) :
-    ∃ m', loadTable 0 1 ['\t'] (splitTableLines m chr alns []) [] = .ok m' ∧
+    ∃ m', loadSplitTable (splitFileText m chr alns) = .ok m' ∧
       getGroupId (.table m') a = .ok (GRes.both (tableGroup m a.name)) := by
-  obtain ⟨m', hm', hl⟩ := table_roundtrip m chr alns hclean
+  obtain ⟨m', hm', hl⟩ := table_roundtrip m chr alns hids hgrp
   refine ⟨m', hm', ?_⟩
   simp only [getGroupId, hl a.name h, tableGroup]
   cases m.lookup a.name <;> rfl
@@ -39,13 +43,14 @@ theorem read_keeps_group_on_every_chromosome (m : List (String × String)) (alns
 /-- **multi_chromosome_read_same_group**: a read with records on two chromosomes is counted under the same group by the
     collectors of both -/
 theorem multi_chromosome_read_same_group (m : List (String × String)) (alns : List (String × Option String))
-    (hclean : ∀ rid c g, (rid, c) ∈ alns → m.lookup rid = some g → CleanRead rid ∧ CleanField g)
+    (hids : ∀ rid c, (rid, c) ∈ alns → '\t' ∉ rid.toList ∧ '\n' ∉ rid.toList)
+    (hgrp : ∀ rid g, m.lookup rid = some g → '\n' ∉ g.toList)
     (c₁ c₂ : String) (a : Aln) (h₁ : (a.name, some c₁) ∈ alns) (h₂ : (a.name, some c₂) ∈ alns) :
-    ∃ m₁ m₂, loadTable 0 1 ['\t'] (splitTableLines m c₁ alns []) [] = .ok m₁ ∧
-      loadTable 0 1 ['\t'] (splitTableLines m c₂ alns []) [] = .ok m₂ ∧
+    ∃ m₁ m₂, loadSplitTable (splitFileText m c₁ alns) = .ok m₁ ∧
+      loadSplitTable (splitFileText m c₂ alns) = .ok m₂ ∧
       getGroupId (.table m₁) a = getGroupId (.table m₂) a := by
-  obtain ⟨m₁, h1, g1⟩ := read_keeps_group_on_every_chromosome m alns hclean c₁ a h₁
-  obtain ⟨m₂, h2, g2⟩ := read_keeps_group_on_every_chromosome m alns hclean c₂ a h₂
+  obtain ⟨m₁, h1, g1⟩ := read_keeps_group_on_every_chromosome m alns hids hgrp c₁ a h₁
+  obtain ⟨m₂, h2, g2⟩ := read_keeps_group_on_every_chromosome m alns hids hgrp c₂ a h₂
   exact ⟨m₁, m₂, h1, h2, by rw [g1, g2]⟩
 
 /-- regression example for the seeded change that shared one `processed_reads` set between the chromosomes: the read
@@ -55,10 +60,11 @@ theorem global_dedup_loses_group_witness :
     splitTableLines [("r", "g")] "chr2" [("r", some "chr1"), ("r", some "chr2")] [] = ["r\tg".toList] ∧
     getGroupId (.table []) ⟨"r", [], none⟩ = .ok (GRes.both NA) := by decide +kernel
 
--- non-vacuity: a clean table, a read on two chromosomes of two BAM files, an unmapped record
-example : (("r1", some "chr2") ∈ [("r1", some "chr1"), ("x", none), ("r2", some "chr2"), ("r1", some "chr2")]) ∧
-    loadTable 0 1 ['\t'] (splitTableLines [("r1", "cell A"), ("r2", "g2")] "chr2"
-      [("r1", some "chr1"), ("x", none), ("r2", some "chr2"), ("r1", some "chr2")] []) [] =
-      .ok [("r2", "g2"), ("r1", "cell A")] := by decide +kernel
+-- non-vacuity: a table with a `#` read id and a blank-padded group, a read on two chromosomes of two BAM files, an
+-- unmapped record
+example : (("#r1", some "chr2") ∈ [("#r1", some "chr1"), ("x", none), ("r2", some "chr2"), ("#r1", some "chr2")]) ∧
+    loadSplitTable (splitFileText [("#r1", "cell A "), ("r2", "g2")] "chr2"
+      [("#r1", some "chr1"), ("x", none), ("r2", some "chr2"), ("#r1", some "chr2")]) =
+      .ok [("r2", "g2"), ("#r1", "cell A ")] := by decide +kernel
 
 end IsoVerif.Props.C09TablesChrom
